@@ -1543,11 +1543,12 @@ def m_dropout_mask_live(g):
     if g.opset >= 12:
         if g.rng.random() < 0.6:
             ins.append(g.const(np.array(g.rng.choice([0.0, 0.5]), dtype=F32)))
-    elif g.rng.random() < 0.5:
-        attrs["ratio"] = g.rng.choice([0.0, 0.25, 0.5])
+    elif g.rng.random() < 0.75:
+        # ratio 0 is the value the default rule set looks for (dropout_zero)
+        attrs["ratio"] = g.rng.choice([0.0, 0.0, 0.25, 0.5])
     out, mask = g.add("Dropout", ins, nout=2, mag=x.mag, **attrs)
     g.hit("motif:dropout_mask_live")
-    how = g.rng.choice(["output", "consume", "both"])
+    how = g.rng.choice(["output", "output", "consume", "both"])
     r = out
     if how in ("consume", "both"):
         if mask.dtype.kind == "b":
